@@ -167,7 +167,22 @@ def echo_impl(chunks):
         full = [bytes(x) for x in lua.Lua.from_lines(list(chunks), 8).to_lines()]
     except Exception:  # noqa  (the parser rejects many lexable sources; the echo writer never needs it)
         full = None
-    return {'lines': lines, 'full': full}
+    # the public API on a Lua object with a history: half of the chunks are loaded, the object is echoed and asked for
+    # its character count, then the rest is loaded (update_from_lines appends): the echo must be that of a fresh load
+    upd = None
+    chunks = list(chunks)
+    if full is not None and len(chunks) >= 2:
+        try:
+            k = len(chunks) // 2
+            l2 = lua.Lua(8)
+            l2.update_from_lines(chunks[:k])
+            b''.join(l2.to_lines())
+            l2.get_char_count()
+            l2.update_from_lines(chunks[k:])
+            upd = [bytes(x) for x in l2.to_lines()]
+        except Exception:  # noqa  (the first half alone need not parse)
+            upd = None
+    return {'lines': lines, 'full': full, 'upd': upd}
 
 
 def run_impl_src(src):
@@ -238,6 +253,8 @@ def _eval_rows(mon, rows):
             sig = 'C06/chunking/error-differs'
         if sig is None and 'err' not in r['one'] and b''.join(r['one']['lines']) != b''.join(r['lines']['lines']):
             sig = 'C06/chunking/text-differs'
+        if sig is None and r['lines'].get('upd') is not None and b''.join(r['lines']['upd']) != b''.join(r['lines']['full']):
+            sig = 'C06/history/update-from-lines'
         out.append((sig, r))
     return out
 
